@@ -6,7 +6,8 @@ from vf.core import Part, Violation, call
 from vf.props import common
 
 PROPERTY = "C03"
-RULE = ("Hypothesis generates validated model DAG specs (pre-fixed nodes and constant leaves allowed) x total in-bounds leaf "
+RULE = ("Parts 'shapes*': EXHAUSTIVE enumeration of every single threshold node (all values/signs, 1-2 children from a boolean "
+        "and an integer leaf with negative lower bound) alone and inside every connective, on every leaf assignment. Part 'evaluate': Hypothesis generates validated model DAG specs (pre-fixed nodes and constant leaves allowed) x total in-bounds leaf "
         "interpretations (box enumerated when <=200 points, else drawn), each value passed as int / numpy int / (v,v) tuple / "
         "Bounds(v,v) chosen per leaf by a drawn form list, x optional overrides {sub-proposition id: 0|1}. Every evaluation "
         "with overrides runs on a freshly built object. Oracle: own bottom-up arithmetic evaluator over the built object "
@@ -138,5 +139,11 @@ def _show(interp):
     return {k: (oracle.bounds_tuple(v) if hasattr(v, "lower") else (int(v) if not isinstance(v, tuple) else v)) for k, v in interp.items()}
 
 
+def shapes(slice_i, n):
+    from vf import strategies as S
+    for spec in S.small_shapes(slice_i, n):
+        yield {"model": spec, "points": None, "forms": [0, 1, 2, 3], "ov": []}
+
+
 def parts(tier):
-    return [Part("evaluate", strategy=lambda t: case_strategy(t), check=check, quick=(8, 200), thorough=(16, 1500))]
+    return [Part("shapes%d" % i, enumerate_cases=(lambda t, i=i: shapes(i, 4)), check=check, time_quick=120.0) for i in range(4)] + [Part("evaluate", strategy=lambda t: case_strategy(t), check=check, quick=(8, 200), thorough=(16, 1500))]
